@@ -117,12 +117,17 @@ func (rt *runtime) cmplEvaluateNodeArrayLiteral(node *nodeArrayLiteral) Value {
 
 func (rt *runtime) cmplEvaluateNodeAssignExpression(node *nodeAssignExpression) Value {
 	left := rt.cmplEvaluateNodeExpression(node.left)
+	leftValue := left
+	if node.operator != token.ASSIGN {
+		// GetValue(lref) comes before the right operand is evaluated (ECMA 262 11.13.2).
+		leftValue = left.resolve()
+	}
 	right := rt.cmplEvaluateNodeExpression(node.right)
 	rightValue := right.resolve()
 
 	result := rightValue
 	if node.operator != token.ASSIGN {
-		result = rt.calculateBinaryExpression(node.operator, left, rightValue)
+		result = rt.calculateBinaryExpression(node.operator, leftValue, rightValue)
 	}
 
 	rt.putValue(left.reference(), result)
